@@ -423,7 +423,7 @@ type roundResult struct {
 	Final map[string][]ent // final History of every plain and reference key, ascending
 	// broken is set when the quiescent state could not be collected
 	Broken string
-	// call tickets of the CompactIndex calls that succeeded (the index was swapped) during the round
+	// call tickets of the CompactIndex calls made during the round
 	Compactions []int64
 }
 
@@ -510,11 +510,11 @@ func (rn *runner) runRound(pl *roundPlan, seed int64, caseIdx int, compaction bo
 				t := rn.ticket.Add(1)
 				err = rn.db.CompactIndex()
 				rn.c.Count("compactions", 1)
-				if err == nil {
-					mu.Lock()
-					res.Compactions = append(res.Compactions, t)
-					mu.Unlock()
-				}
+				// recorded whatever it returned: CompactIndexes stops at the first indexer that
+				// reports an error (e.g. threshold not reached) after having swapped earlier ones
+				mu.Lock()
+				res.Compactions = append(res.Compactions, t)
+				mu.Unlock()
 			} else {
 				err = rn.db.FlushIndex(&schema.FlushIndexRequest{CleanupPercentage: pick(r, []float32{0, 0, 10, 50, 100}), Synced: r.IntN(8) == 0})
 				rn.c.Count("flushes", 1)
